@@ -4,7 +4,7 @@ ASSUMPTIONS = ['composition: stream/manager jobs replace the real chacha20_block
                'input lengths are the listed ones (quick: 0,1,63,64,65,127,128,129; thorough: every length 0..200); the loop body is length-independent',
                'std::random_device is a concrete stub (nonce values themselves are not the subject); the all-zero key (replaced by a random key in the constructor) is outside the claim',
                'reference block function written from RFC 8439 2.1-2.3 and checked against the RFC test vectors in job vectors']
-R = {r'chacha20_blockERKNS0_3KeyERKNS0_5NonceEjRSt5arrayIhLm64EE$': 'h_uf_real_block', r'^_ZN4spec5blockEPKhS1_jPh$': 'h_uf_spec_block'}
+R = {'__all_or_nothing__': True, r'chacha20_blockERKNS0_3KeyERKNS0_5NonceEjRSt5arrayIhLm64EE$': 'h_uf_real_block', r'^_ZN4spec5blockEPKhS1_jPh$': 'h_uf_spec_block'}
 def jobs(tier):
     out = [Job('block', 'chacha.cpp', 'h_c09_block', [0], reach=['block'], bounds='every key, nonce, counter and 64-byte input', timeout=1500, solver_timeout_ms=600000),
            Job('vectors', 'chacha.cpp', 'h_c09_vectors', [0], reach=['vectors'], bounds='RFC 8439 test vectors')]
